@@ -47,7 +47,18 @@ def run_case(case, rec, cid):
         out["cmp"] = [bool(a == b), bool(a != b), bool(a < b), bool(a <= b), bool(a > b), bool(a >= b)]
         out["ha"], out["hb"] = hid(a), hid(b)
         out["tod"], out["tow"] = proj_dur(a.to_days()), proj_dur(a.to_weeks() if a.get_is_in_weeks() or not (a.years or a.months) else a)
-        out["secs_ok"] = True
+        from fractions import Fraction
+        from harness.common import DAY, I, MEG
+
+        def trip(x):
+            us = int(round(Fraction(x) * MEG))
+            dd, rem = divmod(us, DAY * MEG)
+            return [I(dd), I(rem // MEG), I(rem % MEG)]
+        out["gs"] = trip(a.get_seconds())
+        das = a.get_days_and_seconds()
+        out["das"] = trip(Fraction(das[0]) * DAY + Fraction(das[1]))
+        out["dasnorm"] = bool(0 <= das[1] < DAY)
+        out["isexact"] = bool(a.is_exact())
         return out
     st, v = outcome(f)
     if st == "ok":
